@@ -474,14 +474,23 @@ impl<T: Tier> Cfg<T> for M3P2 {
     }
 }
 
-/// image of a point (w = 1, with the homogeneous divide) or of a vector (w = 0, linear part only)
-fn apply_h<F: Field>(h: H<F>, p: [F; 3], w: F) -> [F; 3] {
+/// image of a point (w = 1, with the homogeneous divide) or of a vector (w = 0, linear part only);
+/// `None` when the point is sent (numerically) to infinity: w = 0 after projection is outside
+/// the statement and not judged
+fn apply_h_opt<F: Field>(h: H<F>, p: [F; 3], w: F) -> Option<[F; 3]> {
     let r = model::mvec(h, [p[0], p[1], p[2], w]);
     if w.is_zero() || r[3] == F::one() {
-        [r[0], r[1], r[2]]
-    } else {
-        [r[0] / r[3], r[1] / r[3], r[2] / r[3]]
+        return Some([r[0], r[1], r[2]]);
     }
+    let scale = r.iter().fold(0.0f64, |a, x| a.max(x.approx().abs()));
+    let wv = r[3].approx();
+    if !(wv.is_finite() && scale.is_finite()) || wv.abs() <= 1e-9 * scale.max(1e-300) || r[3].is_zero() {
+        return None;
+    }
+    Some([r[0] / r[3], r[1] / r[3], r[2] / r[3]])
+}
+fn apply_h<F: Field>(h: H<F>, p: [F; 3], w: F) -> [F; 3] {
+    apply_h_opt(h, p, w).unwrap_or([F::zero(); 3])
 }
 /// bottom row (0, 0, 0, 1): no projective part
 fn affine<F: Field>(h: &H<F>) -> bool {
@@ -516,7 +525,12 @@ fn invariant<T: Tier, C: Cfg<T>>(ctx: &mut Ctx, s: &C::Tr, gens: &[C::Tr]) {
     let (one, zero) = (T::M::one(), T::M::zero());
     ctx.out(&keys(&C::comps(s)));
     for p in &ps {
-        eq_vc::<T, 3>(ctx, &key(&format!("{}/transform_point", C::NAME)), C::tp(s, *p), apply_h(hs, lift_v(*p), one), slack);
+        match apply_h_opt(hs, lift_v(*p), one) {
+            Some(img) => {
+                eq_vc::<T, 3>(ctx, &key(&format!("{}/transform_point", C::NAME)), C::tp(s, *p), img, slack);
+            }
+            None => ctx.branch("point-at-infinity-not-judged"),
+        }
         // directions are transformed by the linear part; for a projective matrix the image of a direction
         // also has a w component that transform_vector drops, so composition laws on vectors are
         // stated (and judged) for affine transforms only
@@ -576,7 +590,14 @@ fn invariant<T: Tier, C: Cfg<T>>(ctx: &mut Ctx, s: &C::Tr, gens: &[C::Tr]) {
         // undoes the transform on points and vectors
         let fwd_p = C::tp(s, *p);
         let fwd_v = C::tv(s, *p);
-        let back_p = apply_h(hi, apply_h(hs, lift_v(*p), one), one);
+        let fwd_m = match apply_h_opt(hs, lift_v(*p), one) {
+            Some(x) => x,
+            None => continue,
+        };
+        let back_p = match apply_h_opt(hi, fwd_m, one) {
+            Some(x) => x,
+            None => continue,
+        };
         let back_v = apply_h(hi, apply_h(hs, lift_v(*p), zero), zero);
         let want_p: [T::M; 3] = std::array::from_fn(|j| p[j].lift().with_err_of(back_p[j]));
         let want_v: [T::M; 3] = std::array::from_fn(|j| p[j].lift().with_err_of(back_v[j]));
@@ -601,7 +622,7 @@ fn invariant<T: Tier, C: Cfg<T>>(ctx: &mut Ctx, s: &C::Tr, gens: &[C::Tr]) {
 }
 
 fn system<T: Tier, C: Cfg<T>>(rep: &mut Report) {
-    let depth = rep.pick(2, 3);
+    let depth = rep.pick(2, 4);
     let gens = C::gens(!T::EXACT);
     let ng = gens.len();
     let mk = |t: C::Tr| Keyed { key: keys(&C::comps(&t)), val: t };
@@ -647,10 +668,16 @@ fn system<T: Tier, C: Cfg<T>>(rep: &mut Report) {
             for p in probes::<T>(C::DIM) {
                 let step_p = C::tp(second, C::tp(first, p));
                 let step_v = C::tv(second, C::tv(first, p));
-                let mp = apply_h(want, lift_v(p), T::M::one());
                 let mv = apply_h(want, lift_v(p), T::M::zero());
-                eq_vc::<T, 3>(ctx, &key(&format!("{}/concat/point", C::NAME)), C::tp(&res, p), mp, slack * 4.0);
-                eq_vc::<T, 3>(ctx, &key(&format!("{}/concat/point-stepwise", C::NAME)), step_p, mp, slack * 4.0);
+                // points: judged unless some stage sends the probe to infinity
+                let stage1 = apply_h_opt(C::h(first), lift_v(p), T::M::one());
+                let stage2 = stage1.and_then(|q| apply_h_opt(C::h(second), q, T::M::one()));
+                if let (Some(mp), Some(_)) = (apply_h_opt(want, lift_v(p), T::M::one()), stage2) {
+                    eq_vc::<T, 3>(ctx, &key(&format!("{}/concat/point", C::NAME)), C::tp(&res, p), mp, slack * 4.0);
+                    eq_vc::<T, 3>(ctx, &key(&format!("{}/concat/point-stepwise", C::NAME)), step_p, mp, slack * 4.0);
+                } else {
+                    ctx.branch("point-at-infinity-not-judged");
+                }
                 eq_vc::<T, 3>(ctx, &key(&format!("{}/concat/vector", C::NAME)), C::tv(&res, p), mv, slack * 4.0);
                 if affine(&hs) && affine(&hg) {
                     eq_vc::<T, 3>(ctx, &key(&format!("{}/concat/vector-stepwise", C::NAME)), step_v, mv, slack * 4.0);
